@@ -18,3 +18,30 @@ fn verif_witness_c11_ttl_publish() {
     assert!(store.get(b"shortened").is_err());
     assert!(!keys.iter().any(|k| k == b"shortened"), "expired key still visible to range_query through its replaced generation");
 }
+
+/// The same for a value that lives only on disk and was never read back (the *deferred* TTL replacement) and for a
+/// cache-warm one. (Scenario from the independently seeded demonstration r5-C01; ~2.5 s.)
+#[test]
+fn verif_witness_c11_ttl_publish_offloaded() {
+    let dir = tempfile::tempdir().unwrap();
+    let path = dir.path().join("ttl.feox").to_string_lossy().into_owned();
+    let store = FeoxStore::builder().device_path(path).file_size(4 * 1024 * 1024).enable_ttl(true).build().unwrap();
+    let started = std::time::Instant::now();
+    store.insert_with_ttl(b"k:cold", b"cold-value", 2).unwrap();
+    store.insert_with_ttl(b"k:warm", b"warm-value", 2).unwrap();
+    store.insert(b"k:plain", b"plain-value").unwrap();
+    store.insert(b"k:short", b"short-value").unwrap();
+    store.flush().unwrap(); // values offloaded
+    assert_eq!(store.get(b"k:warm").unwrap(), b"warm-value");
+    store.persist(b"k:cold").unwrap();
+    store.persist(b"k:warm").unwrap();
+    store.update_ttl(b"k:short", 1).unwrap();
+    if let Some(rest) = Duration::from_millis(2400).checked_sub(started.elapsed()) {
+        sleep(rest);
+    }
+    let keys: Vec<Vec<u8>> = store.range_query(b"k:", b"k:\xff", 100).unwrap().into_iter().map(|(k, _)| k).collect();
+    assert_eq!(store.get(b"k:cold").unwrap(), b"cold-value");
+    assert!(store.get(b"k:short").is_err());
+    assert_eq!(keys, vec![b"k:cold".to_vec(), b"k:plain".to_vec(), b"k:warm".to_vec()],
+               "range_query judges expiry by a replaced generation after a TTL-only update of an offloaded value");
+}
